@@ -63,6 +63,7 @@ func checkC10(w *World, r *Report) {
 		checkLoadMap(w, r, loadJob, "PersistedJob", saveJob)
 		checkLoadMap(w, r, loadTask, "PersistedTask", saveTask)
 		checkTasksRestored(w, r, loadJob)
+		checkTasksSaved(w, r)
 		if loadTaskDef != nil {
 			checkLoadMap(w, r, loadTaskDef, "PersistedTask", saveTask)
 		}
